@@ -189,7 +189,7 @@ static void script_bigstring(void)
         CHECK(ab == 0, "step %d: %s", k, ab == 2 ? shim_assert_msg : "did not return");
         if (failed) break;
         CHECK(cstl_string_size(&a) == strlen(ref) && strcmp(cstl_string_str(&a), ref) == 0, "string differs from the reference after step %d", k);
-        if (k >= 3 && !failed) { shim_blk *bb = shim_find(cstl_string_str(&b)); CHECK(cstl_string_size(&b) == 6 && bb != NULL && memcmp(cstl_string_str(&b), "2345xy" + 0, 0) == 0, "second string is damaged after step %d", k); }
+        if (k >= 3 && !failed) { CHECK(cstl_string_size(&b) == 6 && cstl_string_str(&b) != NULL && strlen(cstl_string_str(&b)) == 6, "second string is damaged after step %d", k); }      /* where a string keeps 6 characters (heap, inline) is its own business */
     }
     step_begin("bigstring clear");
     SHIM_CALL(ab, (cstl_string_clear(&a), cstl_string_clear(&b))); CHECK(!ab, "clear aborted");
@@ -346,6 +346,17 @@ static void script_memory(void)
     }
     step_begin("unique reset (final)"); SHIM_CALL(ab, cstl_unique_ptr_reset(&u));
     CHECK(!ab && p_clr_calls == expect_clr && p_clr_null == 0, "clear function ran %d times (%d on NULL) for %d successful allocations", p_clr_calls, p_clr_null, expect_clr);
+    /* a unique pointer WITHOUT a clear function, re-targeted while it owns memory: whether the new allocation succeeds or fails, the old memory is gone
+     * (released exactly once), and a failure leaves the object empty */
+    { cstl_unique_ptr_t u2; int base; cstl_unique_ptr_init(&u2); base = shim_nlive();
+      for (k = 0; k < 3 && !failed; k++) {
+          step_begin("unique alloc without clear function");
+          SHIM_CALL(ab, cstl_unique_ptr_alloc(&u2, k == 1 ? 80 : 16, NULL, NULL)); CHECK(!ab, "unique alloc (no clear function) aborted");
+          if (cstl_unique_ptr_get(&u2) == NULL) { CHECK(fault_in_step(), "unique alloc left the pointer empty without an allocation failure"); tr("ualloc0->empty "); }
+          else memset(cstl_unique_ptr_get(&u2), 2, k == 1 ? 80 : 16);
+      }
+      step_begin("unique reset (no clear function)"); SHIM_CALL(ab, cstl_unique_ptr_reset(&u2)); CHECK(!ab && cstl_unique_ptr_get(&u2) == NULL, "reset of the unique pointer aborted or left it owning memory"); (void)base;      /* what was leaked is decided by the audit at the end of the script */
+    }
     p_clr_calls = 0; expect_clr = 0;
     for (k = 0; k < 3 && !failed; k++) {
         step_begin("shared alloc");
